@@ -739,9 +739,9 @@ static int cr_open(int slot, int rg, int col, int maxdef_override) {
     return 1;
 }
 
-/* one read_batch call on a slot; prints "ret=<n> defs=.. reps=.. nvals=<m> vals=.." (no newline).
+/* one read_batch call on a slot; prints "<prefix>ret=<n> defs=.. reps=.. nvals=<m> vals=.." (no newline).
  * Returns the library's return value. */
-static int64_t cr_read(int slot, int64_t k, int want_def, int want_rep, int raw) {
+static int64_t cr_read(const char* prefix, int slot, int64_t k, int want_def, int want_rep, int raw) {
     crslot_t* s = &G.cr[slot];
     size_t w = slot_size(s->type, s->tlen);
     size_t kk = k > 0 ? (size_t)k : 0;
@@ -759,6 +759,7 @@ static int64_t cr_read(int slot, int64_t k, int want_def, int want_rep, int raw)
     ARM();
     int64_t n = carquet_column_read_batch(s->cr, values, k, defs, reps);
     DISARM();
+    fputs(prefix, stdout);
     int64_t shown = n > 0 ? (n > k ? k : n) : 0;      /* never look beyond what we allocated */
     int64_t m = shown;
     if (defs) { m = 0; for (int64_t i = 0; i < shown; i++) if (defs[i] == s->maxdef) m++; }
@@ -799,8 +800,7 @@ static void cmd_dump(void) {
             int64_t total = 0; long calls = 0;
             const char* end = "OK";
             for (;;) {
-                printf("part ");
-                int64_t n = cr_read(slot, batch, 1, 1, 0);
+                int64_t n = cr_read("part ", slot, batch, 1, 1, 0);
                 putchar('\n');
                 calls++;
                 if (n < 0) { end = "ERR"; break; }
@@ -832,8 +832,8 @@ static void cmd_cr(void) {
     if (!strcmp(T[0], "CR_READ") && NT >= 3) {      /* CR_READ <slot> <k> [nodef] [norep] [raw] */
         int wd = 1, wr = 1, raw = 0;
         for (int i = 3; i < NT; i++) { if (!strcmp(T[i], "nodef")) wd = 0; if (!strcmp(T[i], "norep")) wr = 0; if (!strcmp(T[i], "raw")) raw = 1; }
-        printf("read %d ", s);
-        cr_read(s, strtoll(T[2], NULL, 10), wd, wr, raw);
+        char pre[32]; snprintf(pre, sizeof pre, "read %d ", s);
+        cr_read(pre, s, strtoll(T[2], NULL, 10), wd, wr, raw);
         putchar('\n');
     } else if (!strcmp(T[0], "CR_SKIP") && NT >= 3) {
         cr_recheck(&G.cr[s], s);
@@ -1064,7 +1064,8 @@ static void run_case(const char* id, char** lines, size_t n) {
             char* p = strstr(err, keys[k]);
             if (p) { size_t i = 0; while (p[i] && p[i] != '\n' && i < sizeof sum - 1) { sum[i] = p[i] == ' ' ? '_' : p[i]; i++; } sum[i] = 0; }
         }
-        printf("FAULT %s exit=%d signal=%d summary=%s\n", id, WIFEXITED(status) ? WEXITSTATUS(status) : -1,
+        /* the child may have died in the middle of a line */
+        printf("\nFAULT %s exit=%d signal=%d summary=%s\n", id, WIFEXITED(status) ? WEXITSTATUS(status) : -1,
                WIFSIGNALED(status) ? WTERMSIG(status) : 0, sum[0] ? sum : "-");
     }
     if (len) { fprintf(stderr, "---- stderr of case %s ----\n%s\n", id, err); }
